@@ -7,7 +7,8 @@ from .engine import Violation, model_ops
 
 
 def dialect_of(cfg):
-    return 'back' if cfg <= 4 else 'mp11'
+    # front-end variants (C14) are keyed as variant*10 + configuration
+    return 'back' if (cfg % 10) <= 4 else 'mp11'
 
 
 class Ctx:
@@ -1178,6 +1179,7 @@ def C11(ctx):
     nontrivial = []
     blocking = {}        # entered blocking state -> event description current when it was entered
     swallowed = set()
+    admitted = set()
     etype = {}
     in_sync = True
     for i, c in enumerate(ctx.case):
@@ -1207,7 +1209,13 @@ def C11(ctx):
                 term = [s for s in blocking if kinds[s] == 'terminate']
                 same = any(d == cur for cur in blocking.values())
                 tn = d.split('#')[0]
-                is_end = (not term) and any(tn in endev[s] for s in blocking if kinds[s] == 'interrupt')
+                # an occurrence is admitted or swallowed as a whole, at the moment it is offered to the machine
+                if d in admitted:
+                    is_end = True
+                else:
+                    is_end = (not term) and any(tn in endev[s] for s in blocking if kinds[s] == 'interrupt')
+                    if is_end:
+                        admitted.add(d)
                 if not same and not is_end:
                     fail('C11', 'behaviour %s ran although %s state %s is active' % (t, 'terminate' if term else 'interrupt', sorted(blocking)), ctx, i)
                 if is_end and not same:
@@ -1231,7 +1239,10 @@ def C11(ctx):
             else:
                 # processed normally in all regions: compare with the model
                 if in_sync and [t for t in toks if not t.startswith('ids{')] != [t for t in ctx.model[i] if not t.startswith('ids{')]:
-                    fail('C11', 'end-interrupt event %s is not processed as the model predicts' % tn, ctx, i)
+                    sig = None
+                    if ctx.cfg % 10 == 7 and not any(r[3]['ev'] == tn for r in st.rows):
+                        sig = 'mp11_ct_end_interrupt_event_without_row_treated_as_blocked'
+                    fail('C11', 'end-interrupt event %s is not processed as the model predicts' % tn, ctx, i, sig=sig)
                 classes['end_interrupt_step'] += 1
                 if len(root['regions']) > 1:
                     classes['end_interrupt_multi_region'] += 1
@@ -1539,4 +1550,67 @@ def C13(ctx):
         classes['feature_' + f] += 1
     if feats and len(cfgs) >= 3:
         nontrivial.append((ctx.spec['id'], cases.to_line(ctx.case)))
+    return dict(nontrivial=nontrivial, classes=classes)
+
+
+
+# ---------------------------------------------------------------------------------------------- C14 (front-end differential part)
+FE_NAMES = {0: 'functor', 1: 'basic+row2', 2: 'puml', 3: 'puml(restyled)'}
+
+
+def C14(ctx):
+    """Front-end equivalence: the same machine written with functor rows, with basic rows (row/a_row/g_row/_row/irow
+    family, part of them through the row2 family), and as a PlantUML string (two renderings: canonical, and with other
+    arrow lengths / padding / order of the action and guard parts) gives the same trace on the same back-end, equal to
+    the model (guard atoms log their calls, so precedence and short-circuit order are observable; action sequences log in
+    written order; flag / entry / exit / terminate lines are observable through probes and the entry/exit log)."""
+    from . import build as B
+    st = ctx.static
+    classes = Counter()
+    runs = ctx.runs
+    keys = sorted(runs)
+    label = lambda k: '%s on %s' % (FE_NAMES[k // 10], B.CONFIGS[k % 10])
+    ref = ctx.model
+    nopb = lambda toks: [t for t in (toks or []) if not t.startswith('PB{')]
+    pbs = lambda toks: [t for t in (toks or []) if t.startswith('PB{')]
+    for i in range(len(ctx.case)):
+        # flags / ids probed after the operation must be the same in every variant (flag lines affect only the state they name)
+        p0 = pbs(runs[keys[0]][i] if i < len(runs[keys[0]]) else None)
+        for k in keys[1:]:
+            pk = pbs(runs[k][i] if i < len(runs[k]) else None)
+            if pk != p0:
+                fail('C14', 'front-end variant [%s] reports other flags / active states than [%s]: %s vs %s' % (label(k), label(keys[0]), pk, p0), ctx, i)
+        for k in keys:
+            row = nopb(runs[k][i] if i < len(runs[k]) else None)
+            if row != nopb(ref[i]):
+                others = [kk for kk in keys if nopb(runs[kk][i] if i < len(runs[kk]) else None) == nopb(ref[i])]
+                a, b = row or [], nopb(ref[i])
+                j = 0
+                while j < min(len(a), len(b)) and a[j] == b[j]:
+                    j += 1
+                fail('C14', 'front-end variant [%s] behaves differently from %s (first difference at token %d: %s vs %s)'
+                     % (label(k), [label(x) for x in others] or 'the model', j, a[j] if j < len(a) else None, b[j] if j < len(b) else None),
+                     ctx, i, variant=label(k), variant_trace=' '.join(a), model_trace=' '.join(b))
+    classes['cases_compared'] += 1
+    classes['variants_%d' % len(keys)] += 1
+    nontrivial = []
+    # non-trivial: some step evaluated a composite guard (>= 2 atoms of one row) or ran an action sequence (>= 2 actions of one row)
+    for i, toks in enumerate(ctx.sut):
+        rows_g, rows_a = Counter(), Counter()
+        for t in toks:
+            p = parse(t)
+            if p and p[0] == 'g':
+                o = st.atom_owner.get(p[1])
+                if o:
+                    rows_g[o[2]] += 1
+            if p and p[0] == 'a':
+                o = st.action_owner.get(p[1])
+                if o:
+                    rows_a[o[2]] += 1
+        if any(v >= 2 for v in rows_g.values()):
+            classes['composite_guard_step'] += 1
+        if any(v >= 2 for v in rows_a.values()):
+            classes['action_sequence_step'] += 1
+        if any(v >= 2 for v in rows_g.values()) or any(v >= 2 for v in rows_a.values()):
+            nontrivial.append((ctx.spec['id'], ids_before(ctx, i), tuple(t.split('/')[0] for t in toks if t[0] in 'ga')))
     return dict(nontrivial=nontrivial, classes=classes)
